@@ -267,17 +267,17 @@ func workerMain(args []string) int {
 			for j := 0; j < k; j++ {
 				g := pr.Range(1, len(ex.racePoints))
 				if n := ex.racePoints[g-1]; n > 0 {
-					var ids []int32
-					if g-1 < len(ex.racePointIDs) {
-						ids = ex.racePointIDs[g-1]
+					var occ []pointOcc
+					if g-1 < len(ex.racePointOcc) {
+						occ = ex.racePointOcc[g-1]
 					}
-					tr.Points = append(tr.Points, PointAct{G: g, Nth: pickPoint(pr, ids, n), Act: "yield"})
+					tr.Points = append(tr.Points, PointAct{G: g, Nth: pickPointOcc(pr, occ, n), Act: "yield"})
 				}
 			}
 			// targeted pairs: a rarely executed statement reached by two goroutines —
 			// suspend one right before it, let the other run ahead through its own
 			// execution of the same statement (the window of a check-then-act)
-			tr.Points = append(tr.Points, pairedYields(pr, ex.racePointIDs, ex.racePointSteps, pr.Range(10, 40))...)
+			tr.Points = append(tr.Points, pairedYields(pr, ex.racePointOcc, pr.Range(10, 40))...)
 			if jf != nil {
 				pj, _ := json.Marshal(tr.Points)
 				fmt.Fprintf(jf, "POINTS %d %s\n", i, pj)
@@ -291,6 +291,7 @@ func workerMain(args []string) int {
 			ex.tx = ptx
 			if pst != nil {
 				addMap(ex.st.Events, pst.Events)
+				wo.Probes["second_pass_timeouts"] += pst.Probes["second_pass_timeouts"]
 			}
 			wo.Probes["point_runs"]++
 			wo.Probes["paired_yields_planned"] += len(tr.Points) - k
@@ -454,45 +455,50 @@ func pickPoint(r *RNG, ids []int32, n int) int {
 	return int(o[r.Intn(len(o))])
 }
 
-// pairedYields plans up to want targeted yields from the counting pass's record.
-func pairedYields(r *RNG, ids [][]int32, steps [][]int32, want int) []PointAct {
-	type occ struct{ g, ord, step int }
-	by := map[int32][]occ{}
-	var order []int32
-	for g := range ids {
-		if g >= len(steps) || len(steps[g]) != len(ids[g]) {
-			continue
-		}
-		for o, id := range ids[g] {
-			if len(by[id]) == 0 {
-				order = append(order, id)
-			}
-			if len(by[id]) < 400 {
-				by[id] = append(by[id], occ{g + 1, o, int(steps[g][o])})
-			}
+// pickPointOcc: like pickPoint, from the bounded per-statement record.
+func pickPointOcc(r *RNG, occ []pointOcc, n int) int {
+	var distinct []int
+	for id := range occ {
+		if occ[id].n > 0 {
+			distinct = append(distinct, id)
 		}
 	}
-	// statements reached rarely, by at least two goroutines
-	var rare []int32
-	for _, id := range order {
-		os := by[id]
-		if len(os) >= 2 && len(os) <= 120 {
-			g0, multi := os[0].g, false
-			for _, o := range os {
-				if o.g != g0 {
-					multi = true
+	if len(distinct) == 0 || r.Chance(1, 2) {
+		return r.Intn(n)
+	}
+	o := occ[distinct[r.Intn(len(distinct))]]
+	return o.at[r.Intn(len(o.at))].ord
+}
+
+// pairedYields plans up to want targeted yields from the counting pass's record:
+// a rarely executed statement reached by two goroutines.
+func pairedYields(r *RNG, occ [][]pointOcc, want int) []PointAct {
+	type where struct{ g, ord, step int }
+	maxID := 0
+	for g := range occ {
+		maxID = max(maxID, len(occ[g]))
+	}
+	var rare [][]where
+	for id := 0; id < maxID; id++ {
+		var ws []where
+		total, gs := 0, 0
+		for g := range occ {
+			if id < len(occ[g]) && occ[g][id].n > 0 {
+				total += occ[g][id].n
+				gs++
+				for _, a := range occ[g][id].at {
+					ws = append(ws, where{g + 1, a.ord, a.step})
 				}
 			}
-			if multi {
-				rare = append(rare, id)
-			}
+		}
+		if gs >= 2 && total <= 200 {
+			rare = append(rare, ws)
 		}
 	}
 	var out []PointAct
 	for try := 0; try < want*6 && len(out) < want && len(rare) > 0; try++ {
-		os := by[rare[r.Intn(len(rare))]]
-		a := os[r.Intn(len(os))]
-		b := os[r.Intn(len(os))]
+		ws := rare[r.Intn(len(rare))]
+		a, b := ws[r.Intn(len(ws))], ws[r.Intn(len(ws))]
 		if a.g == b.g || b.step <= a.step {
 			continue
 		}
@@ -523,9 +529,10 @@ func secondPass(tr *Trace, known string, tag string) (v *Violation, tx uint64, s
 		go func() { done <- cmd.Wait() }()
 		select {
 		case err = <-done:
-		case <-time.After(10 * time.Minute):
+		case <-time.After(20 * time.Minute):
 			cmd.Process.Kill() // never leave a spinning child behind
-			err = <-done
+			<-done
+			return nil, 0, &RunStats{Probes: map[string]int{"second_pass_timeouts": 1}}, false
 		}
 	}
 	for _, ln := range strings.Split(so.String(), "\n") {
